@@ -755,6 +755,16 @@ func (e2eFamily) Gen(n int, seed int64, mode, tier string) []interface{} {
 				s.pub("x-ta", "k/1", "for-ta", 0, false)
 				s.add(e2eOp{Op: "send", C: "x-ta1", P: "ping"})
 			}
+			// the same client identifier in two mount points, with inbound QoS 2 handshakes that overlap
+			// under the same packet identifier: each tenant's PUBREL releases its own publish only
+			s.connect(0, "q-ta", "q2dev", "ta", 60, nil)
+			s.connect(0, "q-tb", "q2dev", "tb", 60, nil)
+			s.add(e2eOp{Op: "send", C: "q-ta", P: "pub", T: "q/1", Pl: "q2-ta", Q: 2, Mid: 1})
+			s.add(e2eOp{Op: "send", C: "q-tb", P: "pub", T: "q/1", Pl: "q2-tb", Q: 2, Mid: 1})
+			s.ackRaw("q-tb", "pubrel", 1)
+			s.ackRaw("q-ta", "pubrel", 1)
+			s.ackRaw("q-tb", "pubrel", 1)
+			s.add(e2eOp{Op: "send", C: "q-ta", P: "ping"})
 			s.checks()
 			out = append(out, s.in)
 		default:
